@@ -1,0 +1,176 @@
+//go:build verif
+
+// Package verifhook provides instrumentation points for runtime verification.
+// With the "verif" build tag the hooks count persistent writes, can crash the
+// process or inject an error at the n-th write, and perturb goroutine
+// schedules at the yield sites.
+package verifhook
+
+import (
+	"fmt"
+	"os"
+	"runtime"
+	"strconv"
+	"sync"
+	"sync/atomic"
+	"syscall"
+	"time"
+)
+
+var (
+	writeCount int64
+	crashAt    int64
+	failAt     int64
+	failFrom   int64
+	writeLog   *os.File
+	logMu      sync.Mutex
+	observer   atomic.Value // func(n int64, kind string, key []byte) error
+
+	// The yield state is written only while no instrumented goroutine runs
+	// (SetYieldSeed / SetYieldCounting are called between workloads), so that
+	// Yield itself can stay free of synchronisation when counting is off: a
+	// lock or atomic inside Yield would add happens-before edges between the
+	// goroutines under observation and hide their races from the detector.
+	yieldSeed     uint64
+	yieldCounting bool
+	hitsMu        sync.Mutex
+	hits          = map[string]int64{}
+)
+
+// ErrInjected is returned by BeforeWrite at the position chosen with
+// VERIF_FAIL_AT / SetFailAt.
+var ErrInjected = fmt.Errorf("verifhook: injected write error")
+
+func envInt(name string) int64 {
+	s := os.Getenv(name)
+	if s == "" {
+		return 0
+	}
+	n, err := strconv.ParseInt(s, 10, 64)
+	if err != nil {
+		return 0
+	}
+	return n
+}
+
+func init() {
+	crashAt = envInt("VERIF_CRASH_AT")
+	failAt = envInt("VERIF_FAIL_AT")
+	failFrom = envInt("VERIF_FAIL_FROM")
+	if p := os.Getenv("VERIF_WRITE_LOG"); p != "" {
+		f, err := os.OpenFile(p, os.O_CREATE|os.O_WRONLY|os.O_APPEND, 0644)
+		if err == nil {
+			writeLog = f
+		}
+	}
+	if s := envInt("VERIF_YIELD_SEED"); s != 0 {
+		SetYieldSeed(uint64(s))
+	}
+}
+
+// SetFailAt makes the n-th write from now on fail (0 disables) and resets the counter.
+func SetFailAt(n int64) {
+	atomic.StoreInt64(&writeCount, 0)
+	atomic.StoreInt64(&failAt, n)
+}
+
+// SetFailFrom makes every write from the n-th on fail (0 disables) and resets the counter.
+func SetFailFrom(n int64) {
+	atomic.StoreInt64(&writeCount, 0)
+	atomic.StoreInt64(&failFrom, n)
+}
+
+// ResetWrites resets the write counter and returns its previous value.
+func ResetWrites() int64 {
+	return atomic.SwapInt64(&writeCount, 0)
+}
+
+// Writes returns the number of writes seen since the last reset.
+func Writes() int64 { return atomic.LoadInt64(&writeCount) }
+
+// SetObserver installs a callback invoked on every write (nil removes it).
+func SetObserver(f func(n int64, kind string, key []byte) error) {
+	observer.Store(f)
+}
+
+func BeforeWrite(kind string, key []byte) error {
+	n := atomic.AddInt64(&writeCount, 1)
+	if writeLog != nil {
+		logMu.Lock()
+		fmt.Fprintf(writeLog, "%d %s %x\n", n, kind, key)
+		logMu.Unlock()
+	}
+	if c := atomic.LoadInt64(&crashAt); c > 0 && n == c {
+		if writeLog != nil {
+			writeLog.Sync()
+		}
+		syscall.Kill(os.Getpid(), syscall.SIGKILL)
+		select {}
+	}
+	if f := atomic.LoadInt64(&failAt); f > 0 && n == f {
+		return ErrInjected
+	}
+	if f := atomic.LoadInt64(&failFrom); f > 0 && n >= f {
+		return ErrInjected
+	}
+	if f, _ := observer.Load().(func(n int64, kind string, key []byte) error); f != nil {
+		return f(n, kind, key)
+	}
+	return nil
+}
+
+// SetYieldSeed turns schedule perturbation on (seed != 0) or off (seed == 0).
+// Must not be called while instrumented goroutines are running.
+func SetYieldSeed(seed uint64) {
+	yieldSeed = seed
+}
+
+// SetYieldCounting makes Yield count hits per site (this synchronises the
+// callers, so it is meant for runs that are not under the race detector).
+// Must not be called while instrumented goroutines are running.
+func SetYieldCounting(on bool) {
+	yieldCounting = on
+}
+
+// YieldHits returns and clears the number of times each site was reached.
+func YieldHits() map[string]int64 {
+	hitsMu.Lock()
+	defer hitsMu.Unlock()
+	m := hits
+	hits = map[string]int64{}
+	return m
+}
+
+func mix(x uint64) uint64 {
+	x ^= x >> 33
+	x *= 0xff51afd7ed558ccd
+	x ^= x >> 33
+	x *= 0xc4ceb9fe1a85ec53
+	x ^= x >> 33
+	return x
+}
+
+func Yield(site string) {
+	if yieldCounting {
+		hitsMu.Lock()
+		hits[site]++
+		hitsMu.Unlock()
+	}
+	seed := yieldSeed
+	if seed == 0 {
+		return
+	}
+	h := seed ^ uint64(time.Now().UnixNano())*0x9e3779b97f4a7c15
+	for _, c := range []byte(site) {
+		h = h*31 + uint64(c)
+	}
+	h = mix(h)
+	switch h % 8 {
+	case 0, 1, 2:
+		// nothing
+	case 3, 4, 5:
+		runtime.Gosched()
+	default:
+		time.Sleep(time.Duration(10+(h>>8)%290) * time.Microsecond)
+	}
+}
